@@ -358,6 +358,15 @@ pub fn run(ctx: &Ctx) -> ! {
         let name = format!("bfs from {:?}", init.groups);
         rep.section(&name, st);
     }
+    // the same closed space over the names {a, A}: two names that differ only in case are two names (a replace that
+    // matched names loosely would merge them)
+    {
+        let twin_ops: Vec<Op> = KINDS.iter().flat_map(|k| [b'a', b'A'].into_iter().flat_map(move |n| [1, 2].into_iter().map(move |v| Op { kind: *k, name: n, value: v }))).collect();
+        let mut st = Stats::new();
+        let mut own: HashMap<u64, usize> = HashMap::new();
+        bfs(&inits[0], &twin_ops, ctx.threads, &mut own, &mut st, inits.len());
+        rep.section("bfs from [] over names {a, A}", st);
+    }
 
     // traversal over the bounded value space
     let vb = SkelBounds {
